@@ -54,7 +54,7 @@ func runC16(c *Ctx) {
 	if parent := c.Need("isaac/block.(*BlockImporter).importOperations"); parent != nil {
 		if cl := c.ClosureWithStore(parent, "&var:ops[index]"); cl != nil {
 			c.MP(cl, "operation stored only after it validated", c.StoresD(cl, "&var:ops[index]"), 1, GOk("call(var:validate)(*)"))
-			c.MP(cl, "operation hash recorded only after it validated", c.StoresD(cl, "&make([]util.Hash)[index]"), 1, GOk("call(var:validate)(*)"))
+			c.MP(cl, "operation hash recorded only after it validated", c.StoresD(cl, "&var:ophs[index]"), 1, GOk("call(var:validate)(*)"))
 		}
 		sts := c.StoresD(parent, "&var:validate")
 		c.Exists(parent, "validation function chosen (plain / genesis)", sts, 2)
